@@ -209,10 +209,13 @@ int sp_ienv(int ispec)
 }
 
 /* ======================================================================= events */
-static __thread long T_ev[4]; static __thread int T_ev_first[4];
+static int G_evdebug; static __thread long T_ev[6]; static __thread int T_ev_first[6];
 void slu_verif_event(int kind, int a, int b)
 {
-    (void)b; if (kind < 1 || kind > 3) return;
+    (void)b; if (kind < 1 || kind > 4) return;
+    if (kind == 4) { if (b >= 16) T_ev[VF_EV_WS_GROWTH]++; if (G_evdebug) fprintf(stderr, "EV4 overlap=%d type=%d\n", a, b);
+        /* an in-flight growth of UCOL books USUB's share as well and is legitimately over-committed until the USUB call that follows has checked it */
+        if (!a || b == 16 + UCOL) return; }      /* kind 4 counts as an overlap event only when the invariant is broken */
     if (T_ev[kind]++ == 0) {
         T_ev_first[kind] = a;
         if (kind == VF_EV_ZERO_PIVOT && G_outfd >= 0 && G_cur) {   /* visible to the supervisor even if the process dies later */
@@ -221,7 +224,7 @@ void slu_verif_event(int kind, int a, int b)
         }
     }
 }
-void vf_events_reset(void) { for (int i = 0; i < 4; i++) { T_ev[i] = 0; T_ev_first[i] = -1; } }
+void vf_events_reset(void) { for (int i = 0; i < 6; i++) { T_ev[i] = 0; T_ev_first[i] = -1; } }
 long vf_events_count(int k) { return T_ev[k]; }
 int  vf_events_first(int k) { return T_ev[k] ? T_ev_first[k] : -1; }
 
@@ -379,6 +382,7 @@ int main(int argc, char **argv)
     uint64_t seed = strtoull(argv[3], NULL, 10); long start = atol(argv[4]), count = atol(argv[5]); int tier = atoi(argv[6]);
     int verbose = argc > 8 ? atoi(argv[8]) : 0; int cpu = argc > 9 ? atoi(argv[9]) : (tier ? 20 : 10);
     if (getenv("VF_NOJUNK")) G_nojunk = 1;
+    if (getenv("VF_EVDEBUG")) G_evdebug = 1;
     G_outfd = open(argv[7], O_WRONLY | O_CREAT | O_APPEND, 0644);
     if (G_outfd < 0) { perror("open out"); return VF_EXIT_PROTO; }
     int prec = pl == 's' ? 0 : pl == 'd' ? 1 : pl == 'c' ? 2 : pl == 'z' ? 3 : -1;
@@ -412,6 +416,11 @@ int main(int argc, char **argv)
         struct itimerval off = { { 0, 0 }, { 0, 0 } }; setitimer(ITIMER_PROF, &off, NULL);
         emit_case(&c);
         if (vf_ledger_live() > 0) vf_ledger_purge();
+#if !defined(__SANITIZE_ADDRESS__) && !defined(VF_MSAN)
+        /* known finding F6/F14: after a zero pivot the library may write out of bounds; without a memory sanitizer that
+           damage is silent and would surface in a LATER case of this process. Recycle the process instead. */
+        if (vf_events_count(VF_EV_ZERO_PIVOT) > 0 || strstr(c.notes, "structsing")) { out_line("{\"t\":\"recycle\"}\n"); _exit(VF_EXIT_RECYCLE); }
+#endif
     }
     out_line("{\"t\":\"done\"}\n");
     return 0;
